@@ -3,7 +3,9 @@ package checker
 import (
 	"strings"
 
+	"github.com/jsightapi/jsight-schema-go-library/bytes"
 	"github.com/jsightapi/jsight-schema-go-library/errors"
+	"github.com/jsightapi/jsight-schema-go-library/fs"
 	"github.com/jsightapi/jsight-schema-go-library/notations/jschema/internal/schema"
 	"github.com/jsightapi/jsight-schema-go-library/notations/jschema/internal/schema/constraint"
 )
@@ -62,6 +64,14 @@ type recursionChecker struct {
 	// dropped a number of alternatives which were dropped 'cause they lead to
 	// a recursion. A walk which drops an alternative depends on the path.
 	dropped int
+
+	// ref the reference being followed: the error of a recursion points at the
+	// one which closes the cycle.
+	ref schema.Node
+
+	// current the name of the type being walked, empty for the root schema.
+	// This is the type whose definition contains ref.
+	current string
 }
 
 func (c *recursionChecker) check(node schema.Node, types map[string]schema.Type) error {
@@ -182,6 +192,7 @@ func (c *recursionChecker) checkMixedValueNode(
 	// to infinity recursion.
 	errs := make([]error, 0, len(tt))
 	for _, t := range tt {
+		c.ref = node
 		if err := c.checkType(t, types); err != nil {
 			errs = append(errs, err)
 		}
@@ -200,6 +211,9 @@ func (c *recursionChecker) checkType(typeName string, types map[string]schema.Ty
 		return c.createError()
 	}
 	defer c.leave(typeName)
+
+	defer func(name string) { c.current = name }(c.current)
+	c.current = typeName
 
 	t := types[typeName]
 	if t.Schema() == nil {
@@ -237,5 +251,42 @@ func (c *recursionChecker) leave(typeName string) {
 }
 
 func (c *recursionChecker) createError() error {
-	return errors.Format(errors.ErrInfinityRecursionDetected, strings.Join(c.path, " -> "))
+	e := recursionError{
+		Errorf:            errors.Format(errors.ErrInfinityRecursionDetected, strings.Join(c.path, " -> ")),
+		incorrectUserType: c.current,
+	}
+	if c.ref != nil {
+		lex := c.ref.BasisLexEventOfSchemaForNode()
+		e.file = lex.File()
+		e.index = lex.Begin()
+	}
+	return e
 }
+
+// recursionError is the error of an invalid recursion. Its text is the bare
+// message (which is what users of the library have seen for long); as the other
+// errors of a schema it says where the error is: at the reference which closes
+// the cycle, in the file of the type the reference is written in.
+type recursionError struct {
+	file *fs.File
+	errors.Errorf
+	incorrectUserType string
+	index             bytes.Index
+}
+
+var (
+	_ errors.Error = recursionError{}
+	_ errors.Err   = recursionError{}
+)
+
+func (e recursionError) Filename() string {
+	if e.file == nil {
+		return ""
+	}
+	return e.file.Name()
+}
+
+func (e recursionError) Position() uint            { return uint(e.index) }
+func (e recursionError) Message() string           { return e.Errorf.Error() }
+func (e recursionError) ErrCode() int              { return int(e.Code()) }
+func (e recursionError) IncorrectUserType() string { return e.incorrectUserType }
